@@ -112,6 +112,11 @@ def _colour_events(seed, thorough, tid0):
                 real_part = rp / 2.0 if kind == "unit-dyadic" else float(rp)
                 q = Q.rgb_to_quat(rgb.copy(), real_part=real_part)
                 back = Q.quat_to_rgb(q, clip=False) if kind == "arbitrary-noclip" else Q.quat_to_rgb(q)
+                # the caller rescales the RGB image it was given IN PLACE and converts the same quaternion image again
+                tmp_ = Q.quat_to_rgb(q, clip=False) if kind == "arbitrary-noclip" else Q.quat_to_rgb(q)
+                if isinstance(tmp_, np.ndarray) and tmp_.flags.writeable:
+                    tmp_ *= 0.0
+                    back = Q.quat_to_rgb(q, clip=False) if kind == "arbitrary-noclip" else Q.quat_to_rgb(q)
                 s2 = scale * 2
                 qi, bi = q * s2, back * s2
                 exact = np.array_equal(np.rint(qi), qi) and np.array_equal(np.rint(bi), bi) and q.shape == (H, W, 4) and back.shape == (H, W, 3)
